@@ -333,7 +333,9 @@ Fixpoint frag (e : expr) : bool :=
       frag f &&
       (fix go (l : list expr) : bool := match l with [] => true | x :: l' => frag x && go l' end) args &&
       (fix go (l : list expr) : bool := match l with [] => true | x :: l' => frag x && go l' end) kwargs
-  | ETemplate _ _ => false
+  | ETemplate _ ps =>
+      (fix go (l : list (N * expr)) : bool :=
+         match l with [] => true | (_, x) :: l' => frag x && go l' end) ps
   | EComp e effs => frag e && (fix go (l : list expr) : bool := match l with [] => true | x :: l' => frag x && go l' end) effs
   | ELogged e => frag e
   | EPipe steps => (fix go (l : list expr) : bool := match l with [] => true | x :: l' => frag x && go l' end) steps
